@@ -40,6 +40,10 @@ def run(ctx):
     from .c09 import _concerns as _concerns0
 
     F0_.check_aggregate_key_guard(ctx, "E4.keyvalidate", P)
+    # the verdict is a function of (key, message, signature) alone: nothing reachable from the verification entry points
+    # draws randomness, reads a clock or keeps state between calls (a cache of prepared points / hashed messages keyed on
+    # less than the whole input makes one call's verdict depend on an earlier one)
+    F0_.check_no_effects(ctx, "E7.deterministic", P, ["Signature<C>::verify", "MultiSignature<C>::verify", "AggregateSignature<C>::verify", "ProofOfPossession<C>::verify", "SignatureShare<C>::verify", "PublicKeyShare<C>::verify"])
     # KeyValidate's subgroup half: keys and signatures enter only through the subgroup-checking point decoders - an
     # unchecked decoder lets pk + T (T of cofactor order) parse as another key under which pk's signatures verify
     bad0 = [(f, bb, p) for f, bb, p in PC0_.unchecked_calls(P) if _concerns0(P, f, ("PublicKey", "Signature", "deserialize_public_key", "deserialize_signature", "sig_core", "BlsSignature"))]
